@@ -148,3 +148,15 @@ Example C02_example_corruption_run :
           ++ bs "@r2" ++ LF :: bs "AC" ++ LF :: bs "+" ++ LF :: bs "III" ++ LF :: write ex_r3) TEOF
   = [Rec ex_r1; Rec ex_r3; ErrItem].
 Proof. exact ex_corruption_run. Qed.
+
+(* ---- tie to the Go source by translation (gen/SrcGen.v, regenerated on every run) ---- *)
+From Bio.gen Require SrcGen.
+From Bio.Proofs Require SrcGenProofs.
+
+(* the single chunk Fastq.Write hands to the writer is the translated Fprintf call
+   "@%s\n%s\n+\n%s\n" applied to name, sequence and qualities *)
+Theorem C02_write_format_is_source : forall r,
+  Bio.Model.Fastq.write_calls r
+  = [SrcGen.src_fastq_Write_0 (Bio.Model.Fastq.name r) (Bio.Model.Fastq.seq r) (Bio.Model.Fastq.quals r)].
+Proof. exact SrcGenProofs.fastq_write_is_source. Qed.
+Print Assumptions C02_write_format_is_source.
